@@ -18,6 +18,7 @@ EXPLANATION = (
     "colour/iterator is computed from the same-named component only.  This is the inductive step of the equal-length / same-order "
     "invariant; base cases (with_capacity, from_iter, Default) build every component with the same constructor call.  Not decided: "
     "histories in which a caller desynchronises the public component fields by hand; behaviour of std's Vec/slice operations themselves."
+    " REFCOMP: copied / cloned / as_refs / set are field-wise over every component. Closed world: iterator / collection trait impls may only contain methods with a lockstep entry."
 )
 
 # method -> names a component operation may have
